@@ -229,6 +229,14 @@ structure State where
   dropped : List Nat
   /-- ghost: cell allocated by a `clone` (of that thread) that has not returned yet -/
   resv : Nat → Option Nat
+  /-- ghost: consumer threads between their cursor store / unregistration and their test of the park flag -/
+  wq : List Nat
+  /-- ghost: `(u, p)`: thread `u` is about to unpark the producer thread `p` -/
+  upk : List (Nat × Nat)
+  /-- ghost: the consumer that moved the park flag to CONSUMING -/
+  csm : Option Nat
+  /-- ghost: the cell whose cursor is the current minimum of the producer's scan -/
+  argm : Nat
   /-- ghost: the producer may publish indices below `lim` (`lim ≤ cursor + cap` for every registered cursor) -/
   lim : Nat
   /-- ghost: the slot of the next index has been overwritten but its sequence number not yet stored -/
@@ -244,7 +252,8 @@ def init (cap : Nat) : State :=
     tailsMx := none, flag := 0, pthread := none, pdropped := false, sclosed := false,
     rclosed := fun _ => false, token := fun _ => false, pc := fun _ => .idle,
     sAlive := true, rAlive := fun r => r == 0, sOwner := none, rOwner := fun _ => none,
-    sent := [], got := fun _ => [], c0 := fun _ => 0, dropped := [], resv := fun _ => none, lim := 0, dirty := false,
+    sent := [], got := fun _ => [], c0 := fun _ => 0, dropped := [], resv := fun _ => none, wq := [], upk := [], csm := none, argm := 0,
+    lim := 0, dirty := false,
     taint := false, torn := false }
 
 /-- the published cursor list (what a reader that commits now dereferences) -/
@@ -266,6 +275,12 @@ def omin (m : Option Nat) (v : Nat) : Nat :=
   match m with
   | none => v
   | some x => min x v
+
+/-- ghost: which cell holds the running minimum after loading `v` from cell `r` -/
+def newArg (m : Option Nat) (v r old : Nat) : Nat :=
+  match m with
+  | none => r
+  | some mv => if v < mv then r else old
 
 def probeLen (h : Nat) : Option Nat → Nat
   | none => 0
@@ -410,10 +425,11 @@ def stepSScan (s : State) (t : Nat) (k : ScanK) (h i : Nat) (done todo : List Na
     match rest with
     | [] => if headAfter k then
               some { s.goS t (.snd (.sHead2 k i (done ++ [r]) (omin m (s.cur r)))) with
-                     lim := max s.lim (omin m (s.cur r) + s.cap) }
+                     lim := max s.lim (omin m (s.cur r) + s.cap), argm := newArg m (s.cur r) r s.argm }
             else some { s.goS t (.snd (.sExit k h i (done ++ [r]) (some (omin m (s.cur r))))) with
-                        lim := max s.lim (omin m (s.cur r) + s.cap) }
-    | _ => some (s.goS t (.snd (.sScan k h i (done ++ [r]) rest (some (omin m (s.cur r))))))
+                        lim := max s.lim (omin m (s.cur r) + s.cap), argm := newArg m (s.cur r) r s.argm }
+    | _ => some { s.goS t (.snd (.sScan k h i (done ++ [r]) rest (some (omin m (s.cur r))))) with
+                  argm := newArg m (s.cur r) r s.argm }
 
 def stepSHead2 (s : State) (t : Nat) (k : ScanK) (i : Nat) (L : List Nat) (m : Nat) : State :=
   s.goS t (.snd (.sExit k s.head i L (some m)))
@@ -571,7 +587,7 @@ def stepRVal (s : State) (t r : Nat) (x : RCtx) (c : Nat) : State :=
 
 def stepRSt (s : State) (t r : Nat) (c : Nat) (vs : List Nat) : State :=
   { s.goR t r (.rcv r (.wpFence (.recv vs))) with
-    cur := upd s.cur r (c + vs.length), got := upd s.got r (s.got r ++ vs) }
+    cur := upd s.cur r (c + vs.length), got := upd s.got r (s.got r ++ vs), wq := t :: s.wq }
 
 def stepRDrop (s : State) (t r : Nat) (x : RCtx) (c : Nat) : State :=
   if s.pdropped then s.goR t r (.rcv r (.rHead x c)) else s.goR t r (onEmpty r x)
@@ -636,23 +652,32 @@ def stepKCur (s : State) (t r : Nat) (x : RCtx) : State := s.goR t r (.rcv r (.r
 def stepWpFence (s : State) (t r : Nat) (k : WK) : State := s.goR t r (.rcv r (.wpLoad k))
 
 def stepWpLoad (s : State) (t r : Nat) (k : WK) : State :=
-  if s.flag = 1 then s.goR t r (.rcv r (.wpCas k)) else s.goR t r (wkDone k)
+  if s.flag = 1 then s.goR t r (.rcv r (.wpCas k)) else { s.goR t r (wkDone k) with wq := s.wq.erase t }
 
 def stepWpCas (s : State) (t r : Nat) (k : WK) : State :=
-  if s.flag = 1 then { s.goR t r (.rcv r (.wpIdle k s.pthread)) with flag := 2, pthread := none }
-  else s.goR t r (wkDone k)
+  if s.flag = 1 then
+    { s.goR t r (.rcv r (.wpIdle k s.pthread)) with flag := 2, pthread := none, csm := some t, wq := s.wq.erase t }
+  else { s.goR t r (wkDone k) with wq := s.wq.erase t }
 
 def stepWpIdle (s : State) (t r : Nat) (k : WK) (th : Option Nat) : State :=
-  { s.goR t r (match th with | some p => .rcv r (.wpUnpark k p) | none => wkDone k) with flag := 0 }
+  match th with
+  | some p => { s.goR t r (.rcv r (.wpUnpark k p)) with flag := 0, csm := none, upk := (t, p) :: s.upk }
+  | none => { s.goR t r (wkDone k) with flag := 0, csm := none }
 
 def stepWpUnpark (s : State) (t r : Nat) (k : WK) (th : Nat) : State :=
-  { s.goR t r (wkDone k) with token := upd s.token th true }
+  { s.goR t r (wkDone k) with token := upd s.token th true, upk := s.upk.erase (t, th) }
 
 def stepCCur (s : State) (t r : Nat) : State :=
   { s.goR t r (.rcv r (.mLock (.clone s.nextCell))) with
     nextCell := s.nextCell + 1, cur := upd s.cur s.nextCell (s.cur r), c0 := upd s.c0 s.nextCell (s.cur r),
     rclosed := upd s.rclosed s.nextCell false, got := upd s.got s.nextCell [],
     resv := upd s.resv s.nextCell (some t) }
+
+/-- the step of `modify` that publishes the removal of a cursor -/
+def isUnregPub (k : MK) (p : LPC) : Bool :=
+  match k, p with
+  | .unreg, .wPub _ _ => true
+  | _, _ => false
 
 def stepMLock (s : State) (t r : Nat) (k : MK) : Option State :=
   if s.tailsMx = none then some { s.goR t r (.rcv r (.mMod k (.wLock (mkOp r k)))) with tailsMx := some t }
@@ -667,7 +692,7 @@ def stepMMod (s : State) (t r : Nat) (k : MK) (p : LPC) : Option State :=
     | some (lr', p') =>
       match p' with
       | .idle => some { s.goR t r (.rcv r (.mUnlock k)) with lr := lr' }
-      | _ => some { s.goR t r (.rcv r (.mMod k p')) with lr := lr' }
+      | _ => some { s.goR t r (.rcv r (.mMod k p')) with lr := lr', wq := if isUnregPub k p then t :: s.wq else s.wq }
 
 def stepMUnlock (s : State) (t r : Nat) (k : MK) : State :=
   match k with
@@ -731,6 +756,147 @@ def act (s : State) (t : Nat) : Option State :=
   | .ret _ => none
   | .snd p => actS s t p
   | .rcv r p => actR s t r p
+
+/-! ### the visible action of each control state (kind, object, memory ordering, values)
+
+Compared line by line with the implementation's action log by `Fv.Driver.SpmcB`. Orderings are the
+ones the code passes (`src/spmc/ring_buffer.rs`, `src/internal/left_right.rs`); they carry no
+semantics here. `none` = the step is one of the non-atomic (silent) accesses. -/
+
+inductive Obj where
+  | seq (j : Nat) | head | live | readers (i : Nat) | flag | pdropped | cell (r : Nat)
+  | sclosed | rclosed (r : Nat) | wkMx (j : Nat) | wlock | tailsMx | thread (t : Nat) | none
+deriving DecidableEq, Repr
+
+inductive AK where
+  | load | store | swap | cas | fadd | fsub | fence | lock | unlock | park | unpark | spin
+deriving DecidableEq, Repr
+
+inductive Ord where
+  | rlx | acq | rel | acqrel | sc | na
+deriving DecidableEq, Repr
+
+structure Act where
+  kind : AK
+  obj : Obj := .none
+  ord : Ord := .na
+  ordF : Ord := .na          -- failure ordering of a CAS
+  old : Nat := 0
+  new : Nat := 0
+  ok : Bool := true
+deriving DecidableEq, Repr
+
+def b2n (b : Bool) : Nat := if b then 1 else 0
+
+/-- the action of an embedded left-right control state -/
+def lrAct (sh : LSh) : LPC → Option Act
+  | .rLoad => some { kind := .load, obj := .live, ord := .sc, old := sh.live, new := sh.live }
+  | .rInc i => some { kind := .fadd, obj := .readers i, ord := .sc, old := sh.readers i, new := sh.readers i + 1 }
+  | .rChk _ => some { kind := .load, obj := .live, ord := .sc, old := sh.live, new := sh.live }
+  | .rBack i => some { kind := .fsub, obj := .readers i, ord := .sc, old := sh.readers i, new := sh.readers i - 1 }
+  | .rHold i _ => some { kind := .fsub, obj := .readers i, ord := .sc, old := sh.readers i, new := sh.readers i - 1 }
+  | .wLock _ => some { kind := .lock, obj := .wlock }
+  | .wLoad _ => some { kind := .load, obj := .live, ord := .sc, old := sh.live, new := sh.live }
+  | .wPub _ l => some { kind := .store, obj := .live, ord := .sc, old := sh.live, new := 1 - l }
+  | .wWait _ l => some { kind := .load, obj := .readers l, ord := .sc, old := sh.readers l, new := sh.readers l }
+  | .wSpin _ _ => some { kind := .spin }
+  | .wUnlock => some { kind := .unlock, obj := .wlock }
+  | _ => none
+
+def casAct (obj : Obj) (cur exp new : Nat) (ordS ordF : Ord) : Act :=
+  if cur = exp then { kind := .cas, obj := obj, ord := ordS, ordF := ordF, old := cur, new := new, ok := true }
+  else { kind := .cas, obj := obj, ord := ordS, ordF := ordF, old := cur, new := cur, ok := false }
+
+def actInfoS (s : State) : SPC → Option Act
+  | .sFlag _ => some { kind := .load, obj := .sclosed, ord := .rlx, old := b2n s.sclosed, new := b2n s.sclosed }
+  | .sHead _ => some { kind := .load, obj := .head, ord := .rlx, old := s.head, new := s.head }
+  | .sEnter _ _ p => lrAct s.lr p
+  | .sScan _ _ _ _ todo _ =>
+    match todo with
+    | r :: _ => some { kind := .load, obj := .cell r, ord := .acq, old := s.cur r, new := s.cur r }
+    | [] => none
+  | .sHead2 _ _ _ _ => some { kind := .load, obj := .head, ord := .rlx, old := s.head, new := s.head }
+  | .sExit _ _ i L _ => lrAct s.lr (.rHold i L)
+  | .bHead _ _ => some { kind := .load, obj := .head, ord := .rlx, old := s.head, new := s.head }
+  | .wSeqLd _ h j _ => some { kind := .load, obj := .seq ((h + j) % s.cap), ord := .rlx,
+                              old := s.seq ((h + j) % s.cap), new := s.seq ((h + j) % s.cap) }
+  | .wVal _ _ _ _ _ => none
+  | .wSeqSt _ h j _ => some { kind := .store, obj := .seq ((h + j) % s.cap), ord := .rel,
+                              old := s.seq ((h + j) % s.cap), new := 2 * (h + j) + 1 }
+  | .wHeadSt _ h k => some { kind := .store, obj := .head, ord := .rel, old := s.head, new := h + k }
+  | .wLockW _ h j _ _ => some { kind := .lock, obj := .wkMx ((h + j) % s.cap) }
+  | .wUnlockW _ h j _ _ => some { kind := .unlock, obj := .wkMx ((h + j) % s.cap) }
+  | .wWake _ _ acc =>
+    match acc with
+    | w :: _ => some { kind := .unpark, obj := .thread w, old := b2n (s.token w), new := 1 }
+    | [] => none
+  | .slHead _ => some { kind := .load, obj := .head, ord := .rlx, old := s.head, new := s.head }
+  | .aStore _ => some { kind := .store, obj := .flag, ord := .rel, old := s.flag, new := 1 }
+  | .aFence _ => some { kind := .fence, ord := .sc }
+  | .dCas _ => some (casAct .flag s.flag 1 0 .acqrel .acq)
+  | .dSpin _ => some { kind := .spin }
+  | .dLoad _ => some { kind := .load, obj := .flag, ord := .acq, old := s.flag, new := s.flag }
+  | .dSpin2 _ => some { kind := .spin }
+  | .pPark _ => some { kind := .park, old := 1, new := 0 }
+  | .pHead _ => some { kind := .load, obj := .head, ord := .rlx, old := s.head, new := s.head }
+  | .pLoad _ => some { kind := .load, obj := .flag, ord := .acq, old := s.flag, new := s.flag }
+  | .pCas _ => some (casAct .flag s.flag 1 0 .acqrel .acq)
+  | .pSpin _ => some { kind := .spin }
+  | .cFlag isDrop =>
+    if isDrop then some { kind := .swap, obj := .sclosed, ord := .acqrel, old := b2n s.sclosed, new := 1 }
+    else some (casAct .sclosed (b2n s.sclosed) 0 1 .acqrel .rlx)
+  | .cStore => some { kind := .store, obj := .pdropped, ord := .rel, old := b2n s.pdropped, new := 1 }
+  | .cLock j => some { kind := .lock, obj := .wkMx j }
+  | .cWake _ ws =>
+    match ws with
+    | w :: _ => some { kind := .unpark, obj := .thread w, old := b2n (s.token w), new := 1 }
+    | [] => none
+  | .cUnlock j => some { kind := .unlock, obj := .wkMx j }
+
+def actInfoR (s : State) (r : Nat) : RPC → Option Act
+  | .rFlag _ => some { kind := .load, obj := .rclosed r, ord := .rlx, old := b2n (s.rclosed r), new := b2n (s.rclosed r) }
+  | .rCur _ => some { kind := .load, obj := .cell r, ord := .rlx, old := s.cur r, new := s.cur r }
+  | .rSeq _ c => some { kind := .load, obj := .seq (c % s.cap), ord := .acq, old := s.seq (c % s.cap), new := s.seq (c % s.cap) }
+  | .rVal _ _ => none
+  | .rSt _ c vs => some { kind := .store, obj := .cell r, ord := .rel, old := s.cur r, new := c + vs.length }
+  | .rDrop _ _ => some { kind := .load, obj := .pdropped, ord := .acq, old := b2n s.pdropped, new := b2n s.pdropped }
+  | .rHead _ _ => some { kind := .load, obj := .head, ord := .acq, old := s.head, new := s.head }
+  | .bHd _ _ => some { kind := .load, obj := .head, ord := .acq, old := s.head, new := s.head }
+  | .bDrop _ _ => some { kind := .load, obj := .pdropped, ord := .acq, old := b2n s.pdropped, new := b2n s.pdropped }
+  | .bHd2 _ _ => some { kind := .load, obj := .head, ord := .acq, old := s.head, new := s.head }
+  | .bVals _ _ _ => none
+  | .gCur _ => some { kind := .load, obj := .cell r, ord := .rlx, old := s.cur r, new := s.cur r }
+  | .gLock _ c => some { kind := .lock, obj := .wkMx (c % s.cap) }
+  | .gUnlock _ c => some { kind := .unlock, obj := .wkMx (c % s.cap) }
+  | .eDrop _ => some { kind := .load, obj := .pdropped, ord := .acq, old := b2n s.pdropped, new := b2n s.pdropped }
+  | .eHead _ => some { kind := .load, obj := .head, ord := .acq, old := s.head, new := s.head }
+  | .eCur _ _ => some { kind := .load, obj := .cell r, ord := .rlx, old := s.cur r, new := s.cur r }
+  | .eLock _ c => some { kind := .lock, obj := .wkMx (c % s.cap) }
+  | .eUnlock _ c => some { kind := .unlock, obj := .wkMx (c % s.cap) }
+  | .kPark _ => some { kind := .park, old := 1, new := 0 }
+  | .kCur _ => some { kind := .load, obj := .cell r, ord := .rlx, old := s.cur r, new := s.cur r }
+  | .wpFence _ => some { kind := .fence, ord := .sc }
+  | .wpLoad _ => some { kind := .load, obj := .flag, ord := .acq, old := s.flag, new := s.flag }
+  | .wpCas _ => some (casAct .flag s.flag 1 2 .acqrel .acq)
+  | .wpIdle _ _ => some { kind := .store, obj := .flag, ord := .rel, old := s.flag, new := 0 }
+  | .wpUnpark _ th => some { kind := .unpark, obj := .thread th, old := b2n (s.token th), new := 1 }
+  | .cCur => some { kind := .load, obj := .cell r, ord := .acq, old := s.cur r, new := s.cur r }
+  | .mLock _ => some { kind := .lock, obj := .tailsMx }
+  | .mMod _ p => lrAct s.lr p
+  | .mUnlock _ => some { kind := .unlock, obj := .tailsMx }
+  | .xFlag isDrop =>
+    if isDrop then some { kind := .swap, obj := .rclosed r, ord := .acqrel, old := b2n (s.rclosed r), new := 1 }
+    else some (casAct (.rclosed r) (b2n (s.rclosed r)) 0 1 .acqrel .rlx)
+  | .qDrop => some { kind := .load, obj := .pdropped, ord := .acq, old := b2n s.pdropped, new := b2n s.pdropped }
+  | .qHead _ => some { kind := .load, obj := .head, ord := .acq, old := s.head, new := s.head }
+  | .qCur _ _ => some { kind := .load, obj := .cell r, ord := .acq, old := s.cur r, new := s.cur r }
+
+/-- the visible action thread `t` performs next (`none`: silent step, or not inside an operation) -/
+def actInfo (s : State) (t : Nat) : Option Act :=
+  match s.pc t with
+  | .snd p => actInfoS s p
+  | .rcv r p => actInfoR s r p
+  | _ => none
 
 /-- a thread that is not inside an operation -/
 def isFree : PC → Bool
